@@ -171,7 +171,7 @@ fn new_member(h: &mut Hist, p: &Profile, nested_pct: u32) -> (Member, Cid) {
                 hint_mode: w(|w| [0u8, 1, 2][w.below(3)]),
             })
             .collect();
-        let mut b = Builder { scripts: VecDeque::from(scripts) };
+        let mut b = Builder { scripts: VecDeque::from(scripts), plain: false };
         let before = w(|w| w.ch.len());
         let m = if streams { Member::S(b.build_str(&shape, Some((0, idx)))) } else { Member::F(b.build_fut(&shape, Some((0, idx)))) };
         (m, before)
